@@ -149,6 +149,9 @@ func (e *Exec) resolveType(text string, from *types.Package) (Sort, types.Type) 
 	if from == nil && e.Top != nil && e.Top.Pkg != nil {
 		from = e.Top.Pkg.Pkg
 	}
+	if from == nil {
+		from = e.ctxPkg
+	}
 	if i := strings.LastIndex(t, "."); i > 0 {
 		pk := e.P.FindPackage(t[:i], from)
 		if pk != nil {
@@ -249,7 +252,11 @@ func (e *Exec) evalSpec(x Expr, env *Env) Val {
 		}
 		return Val{T: Sto(m.T, k.T, e.coerce(v, k, m).T), S: m.S, Ty: m.Ty}
 	case ECall:
-		return e.evalCall(x, env)
+		v := e.evalCall(x, env)
+		if v.S == SInt || v.S == SBool {
+			e.observe(x, v, env)
+		}
+		return v
 	case EQuant:
 		nb := *env
 		nb.bound = true
@@ -343,6 +350,11 @@ func (e *Exec) evalIdent(name string, env *Env) Val {
 			if v, ok := e.pkgObject(env.fr.fn.Pkg.Pkg, name, env); ok {
 				return v
 			}
+		}
+	}
+	if env.fr == nil && e.ctxPkg != nil {
+		if v, ok := e.pkgObject(e.ctxPkg, name, env); ok {
+			return v
 		}
 	}
 	e.unsupported("unknown identifier %q in specification", name)
@@ -510,6 +522,10 @@ func (e *Exec) evalSel(x ESel, env *Env) Val {
 				var from *types.Package
 				if env.fr != nil && env.fr.fn.Pkg != nil {
 					from = env.fr.fn.Pkg.Pkg
+				} else if e.curFrame != nil && e.curFrame.fn.Pkg != nil {
+					from = e.curFrame.fn.Pkg.Pkg
+				} else {
+					from = e.ctxPkg
 				}
 				if pk := e.P.FindPackage(id.Name, from); pk != nil {
 					if v, ok := e.pkgObject(pk, x.Name, env); ok {
@@ -639,6 +655,16 @@ func (e *Exec) evalCall(x ECall, env *Env) Val {
 		return intVal("(s_base " + arg(0).T + ")")
 	case "off":
 		return intVal("(s_off " + arg(0).T + ")")
+	case "raw":
+		// raw(s, j): element j (absolute index) of the backing row of slice s
+		v := arg(0)
+		if v.Ty != nil {
+			if t, ok := v.Ty.Underlying().(*types.Slice); ok {
+				h, hs := e.elemHeap(t.Elem())
+				return Val{T: Sel(Sel(e.get(env.st, h, hs), "(s_base "+v.T+")"), arg(1).T), S: e.sortOf(t.Elem()), Ty: t.Elem()}
+			}
+		}
+		e.unsupported("raw() of %s", v.S)
 	case "bytes":
 		v := arg(0)
 		if v.S == SSlice {
@@ -801,6 +827,34 @@ type location struct {
 	whole bool
 }
 
+// evalLocs evaluates a modifies clause to one or more locations.
+func (e *Exec) evalLocs(x Expr, env *Env) []location {
+	if c, ok := x.(ECall); ok && c.Fun == "pointee" {
+		// pointee(a): every field of the struct the boxed pointer a points to
+		v := e.evalSpec(c.Args[0], env)
+		br, known := e.boxInfo[v.T]
+		if !known {
+			e.unsupported("pointee(): argument is not a statically boxed pointer: %s", v.T)
+		}
+		ty, ref := br.ty, br.ref
+		p, ok := ty.Underlying().(*types.Pointer)
+		if !ok {
+			e.unsupported("pointee(): boxed value is not a pointer")
+		}
+		su, ok := p.Elem().Underlying().(*types.Struct)
+		if !ok {
+			e.unsupported("pointee(): not a pointer to struct")
+		}
+		var out []location
+		for i := 0; i < su.NumFields(); i++ {
+			h, hs, _ := e.fieldHeap(p.Elem(), i)
+			out = append(out, location{kind: "heap", heap: h, hs: hs, ref: ref})
+		}
+		return out
+	}
+	return []location{e.evalLoc(x, env)}
+}
+
 func (e *Exec) evalLoc(x Expr, env *Env) location {
 	switch x := x.(type) {
 	case EIdent:
@@ -865,6 +919,23 @@ func (e *Exec) evalLoc(x Expr, env *Env) location {
 				h, hs := e.elemHeap(t.Elem())
 				e.get(env.st, h, hs)
 				return location{kind: "heap", heap: h, hs: hs, whole: true}
+			}
+		case "fieldsof":
+			// fieldsof("*pkg.T", "f"): the whole field array of a struct type
+			ts, _ := x.Args[0].(EStr)
+			fs, _ := x.Args[1].(EStr)
+			_, ty := e.resolveType(ts.Val, nil)
+			if p, ok := ty.Underlying().(*types.Pointer); ok {
+				ty = p.Elem()
+			}
+			if su, ok := ty.Underlying().(*types.Struct); ok {
+				for i := 0; i < su.NumFields(); i++ {
+					if su.Field(i).Name() == fs.Val {
+						h, hs, _ := e.fieldHeap(ty, i)
+						e.get(env.st, h, hs)
+						return location{kind: "heap", heap: h, hs: hs, whole: true}
+					}
+				}
 			}
 		case "fieldof":
 			// fieldof(x, "f"): the whole field array of x's struct type
